@@ -159,6 +159,18 @@ def runner_c12(tier, seed, workdir):
 RUNNERS['C12'] = runner_c12
 
 
+def _multi(name):
+    def run(tier, seed, workdir):
+        import multi
+        return getattr(multi, name)(tier, seed, workdir)
+    return run
+
+
+RUNNERS['C13'] = _multi('run_c13')
+RUNNERS['C15'] = _multi('run_c15')
+RUNNERS['C17'] = _multi('run_c17')
+
+
 def check(prop, tier, seed):
     t0 = time.time()
     workdir = os.path.join(BUILD, 'run', f'{prop}-{tier}')
@@ -248,6 +260,10 @@ def replay(prop, path):
         import engine_props
         common.ocaml_build(); common.harness_build()
         return engine_props.replay_variant(case, workdir)
+    if case.get('kind') == 'multi':
+        import multi
+        common.ocaml_build(); common.harness_build()
+        return multi.replay(case, workdir)
     if case.get('kind') == 'model':
         import c20
         common.translate(); common.ocaml_build(); common.harness_build()
